@@ -248,15 +248,90 @@ def register(reg):
                  returns=Ref('TemplateData'),
                  requires=['bufr_message != None', 'bufr_message._is_compressed != None', 'bufr_message._n_subsets != None',
                            'is_bool(bufr_message._is_compressed.value)', 'is_int(bufr_message._n_subsets.value)', '%s >= 1' % MSG_N],
-                 modifies=['bufr_message.table_group_key'],
+                 modifies=['bufr_message.table_group_key', 'ghost(bufr_message, "td_entered")'], counts=[('bufr_message', 'td_entered')],
                  loops={0: Loop(invariants=['state != None', 'state is entry(state)', 'gh(state, "walks") == entry(gh(state, "walks")) + _i0',
                                             'not state.is_compressed', 'state.n_subsets == %s' % MSG_N,
                                             'len(%s) == %s' % (DALL, MSG_N), 'len(%s) == %s' % (VALL, MSG_N), 'len(%s) == %s' % (LALL, MSG_N),
                                             '%s is entry(%s)' % (DALL, DALL), '%s is entry(%s)' % (VALL, VALL), '%s is entry(%s)' % (LALL, LALL),
                                             ],
                                 modifies=WALK_MOD)},
-                 ensures=['result != None', 'fresh(result)', 'result.is_compressed == %s' % MSG_C,
+                 ensures=['gh(bufr_message, "td_entered") == old(gh(bufr_message, "td_entered")) + 1',
+                          'result != None', 'fresh(result)', 'result.is_compressed == %s' % MSG_C,
                           'len(result.decoded_descriptors_all_subsets) == %s' % MSG_N, 'len(result.decoded_values_all_subsets) == %s' % MSG_N],
                  raises=dict(WALK_ERR, IOError=None, OSError=None), serves=['C01', 'C05', 'C06'],
                  note='the coder state is created with the message\'s own compression flag and subset count; compressed: ONE walk; '
                       'uncompressed: per subset a context switch (fresh registers) and one walk'))
+    register_sections(reg)
+
+
+def register_sections(reg):
+    """Decoder.process_section / process_unexpanded_descriptors / process (C04, C12, C17, C11)"""
+    from contracts.bufr import layout
+    add = reg.add
+    SEC = Ref('BufrSection')
+    MSG = Ref('BufrMessage')
+    PS = 'section._params'
+    P0 = 'old(rpos(bit_reader))'
+    HAS_LEN = '(len(%s) >= 1 and select(%s, 0).name == "section_length")' % (PS, PS)
+    SLEN = 'ival(select(%s, 0).value)' % PS
+    HAS_TD = 'exists(q, 0, len(%s), select(%s, q).type == "template_data")' % (PS, PS)
+
+    add(Contract(M + 'Decoder.process_unexpanded_descriptors', {'self': DEC, 'bit_reader': R, 'section': SEC}, returns=ListT(INT),
+                 requires=layout() + ['bit_reader != None', HAS_LEN, 'is_int(select(%s, 0).value)' % PS],
+                 modifies=['bit_reader.bit_stream.pos'],
+                 locals={'unexpanded_descriptors': ListT(INT)},
+                 loops={0: Loop(invariants=['unexpanded_descriptors != None', 'fresh(unexpanded_descriptors)', 'len(unexpanded_descriptors) == _i0',
+                                            'rpos(bit_reader) == %s + 16 * _i0' % P0,
+                                            'forall(k, 0, _i0, select(unexpanded_descriptors, k) == U(rbits(bit_reader), %s + 16 * k, 2) * 100000 + '
+                                            'U(rbits(bit_reader), %s + 16 * k + 2, 6) * 1000 + U(rbits(bit_reader), %s + 16 * k + 8, 8))' % (P0, P0, P0)],
+                                modifies=['list(unexpanded_descriptors)', 'bit_reader.bit_stream.pos'])},
+                 ensures=['result != None', 'fresh(result)',
+                          # as many descriptors as fit in the rest of the declared section: (length - octets read) // 2, each F:2 X:6 Y:8
+                          'len(result) == max(0, (%s - (%s - section.bitpos_start) // 8) // 2)' % (SLEN, P0),
+                          'rpos(bit_reader) == %s + 16 * len(result)' % P0,
+                          'forall(k, 0, len(result), select(result, k) == U(rbits(bit_reader), %s + 16 * k, 2) * 100000 + '
+                          'U(rbits(bit_reader), %s + 16 * k + 2, 6) * 1000 + U(rbits(bit_reader), %s + 16 * k + 8, 8))' % (P0, P0, P0)],
+                 raises={'BitReadError': None}, serves=['C04', 'C12', 'C01'],
+                 note='the descriptor list fills the declared section: 16 bits each, F X Y as 2 + 6 + 8 bits'))
+
+    # what may escape: the library error; anything else only out of the template walk (C01 / C12 cover the walk itself)
+    WALK_ONLY = {k: HAS_TD for k in ('AssertionError', 'NotImplementedError', 'ValueError', 'StopIteration', 'IndexError', 'TypeError',
+                                     'KeyError', 'AttributeError', 'IOError', 'OSError')}
+
+    def par(q):
+        return 'select(%s, %s)' % (PS, q)
+    TD_READY = ('bufr_message._is_compressed != None and bufr_message._n_subsets != None and '
+                'is_bool(bufr_message._is_compressed.value) and is_int(bufr_message._n_subsets.value) and '
+                'ival(bufr_message._n_subsets.value) >= 1')
+    add(Contract(M + 'Decoder.process_section', {'self': DEC, 'bufr_message': MSG, 'bit_reader': R, 'section': SEC}, returns=INT,
+                 requires=layout() + ['bufr_message != None', 'bit_reader != None',
+                                      # the data section needs the subset count and compression flag decoded from section 3
+                                      'implies(%s, %s)' % (HAS_TD, TD_READY),
+                                      # ... which are parameters of an earlier section, and no parameter of the data section shadows them
+                                      'implies(%s, forall(q, 0, len(%s), %s.name != "is_compressed" and %s.name != "n_subsets" and '
+                                      '%s is not bufr_message._is_compressed and %s is not bufr_message._n_subsets))'
+                                      % (HAS_TD, PS, par('q'), par('q'), par('q'), par('q'))],
+                 modifies=['section.bitpos_start', 'fields_of(section._params, "value")', 'bufr_message.*', 'bit_reader.bit_stream.pos'],
+                 loops={0: Loop(invariants=['section.bitpos_start == %s' % P0, 'rpos(bit_reader) >= %s' % P0,
+                                            'implies(%s, %s)' % (HAS_TD, TD_READY),
+                                            'implies(%s, bufr_message._is_compressed is old(bufr_message._is_compressed) and '
+                                            'bufr_message._n_subsets is old(bufr_message._n_subsets))' % HAS_TD,
+                                            # every value decoded so far has the Python type of its parameter type and meets its expectation
+                                            'forall(q, 0, _i0, implies(%s.type == "uint", is_int(%s.value)))' % (par('q'), par('q')),
+                                            'forall(q, 0, _i0, is_none(%s.expected) or Eq(%s.value, %s.expected))' % (par('q'), par('q'), par('q')),
+                                            'gh(bufr_message, "td_entered") == entry(gh(bufr_message, "td_entered")) + '
+                                            'ite(exists(q, 0, _i0, %s.type == "template_data"), 1, 0)' % par('q')],
+                                modifies=['fields_of(section._params, "value")', 'bufr_message.*', 'bit_reader.bit_stream.pos'],
+                                locals={'parameter': Ref('SectionParameter')})},
+                 ensures=['result == rpos(bit_reader) - %s' % P0, 'result >= 0', 'section.bitpos_start == %s' % P0,
+                          # the declared length is honoured: surplus octets are skipped, an overrun is refused (raises)
+                          'implies(%s, result == 8 * %s)' % (HAS_LEN, SLEN),
+                          # no parameter with an expected value is accepted with another value (D-7: refused with the library error)
+                          'forall(q, 0, len(%s), is_none(%s.expected) or Eq(%s.value, %s.expected))' % (PS, par('q'), par('q'), par('q')),
+                          'forall(q, 0, len(%s), implies(%s.type == "uint", is_int(%s.value)))' % (PS, par('q'), par('q')),
+                          # the template data is entered iff the section has a parameter of that type (C17: metadata-only decoding)
+                          'gh(bufr_message, "td_entered") == old(gh(bufr_message, "td_entered")) + ite(%s, 1, 0)' % HAS_TD],
+                 raises=dict(WALK_ONLY, PyBufrKitError=None), serves=['C04', 'C12', 'C17'],
+                 note='on return exactly the declared number of octets has been consumed; a value differing from its expectation or a section '
+                      'declared shorter than its content is refused with PyBufrKitError; no other exception class escapes from a section '
+                      'without template data'))
